@@ -30,7 +30,10 @@ def get_world(work):
     """Create (once per process and work dir) the workspace; returns (ws, {uid int: live object})."""
     key = str(work)
     if key in _world_cache:
-        return _world_cache[key]
+        w = _world_cache[key]
+        if w[0]._geoh5 is None:      # pylint: disable=protected-access  (a file case closed it)
+            w[0].open(mode="r+")
+        return w
     from uuid import UUID
 
     import numpy as np
@@ -183,7 +186,10 @@ def cz(z):
     return f"({z})%Z" if z < 0 else f"{z}%Z"
 
 
-def coq(j, world_path="WORLD"):
+WORLD_PATH = ["WORLD"]      # case_term sets this to the path the driver reported before printing terms
+
+
+def coq(j):
     if j is None:
         return "PNone"
     if j is True:
@@ -206,7 +212,7 @@ def coq(j, world_path="WORLD"):
         kind = "KEntity" if k == "ent" else f"(KPropGroup {cstring(k[3:])})"
         return f"(PEnt {kind} {j['e']}%N)"
     if "w" in j:
-        return f"(PWs {cstring(j['w'])})"
+        return f"(PWs {cstring(WORLD_PATH[0] if j['w'] == 'WORLD' else j['w'])})"
     if "ty" in j:
         return "(PType T%s)" % {"str": "Str", "int": "Int", "float": "Float", "bool": "Bool", "NoneType": "NoneType", "list": "List",
                                 "tuple": "Tuple", "dict": "Dict", "UUID": "Uuid", "Entity": "Entity", "PropertyGroup": "PropertyGroup",
